@@ -166,7 +166,7 @@ func (db *GoLevelDB) Iterator(start, end []byte) (corestore.Iterator, error) {
 	if (start != nil && len(start) == 0) || (end != nil && len(end) == 0) {
 		return nil, errors.New("key is empty")
 	}
-	itr := db.db.NewIterator(&util.Range{Start: start, Limit: end}, nil)
+	itr := db.db.NewIterator(iterRange(start, end), nil)
 	return newGoLevelDBIterator(itr, start, end, false), nil
 }
 
@@ -175,8 +175,18 @@ func (db *GoLevelDB) ReverseIterator(start, end []byte) (corestore.Iterator, err
 	if (start != nil && len(start) == 0) || (end != nil && len(end) == 0) {
 		return nil, errors.New("key is empty")
 	}
-	itr := db.db.NewIterator(&util.Range{Start: start, Limit: end}, nil)
+	itr := db.db.NewIterator(iterRange(start, end), nil)
 	return newGoLevelDBIterator(itr, start, end, true), nil
+}
+
+// iterRange is the goleveldb range of [start, end). goleveldb requires
+// Start <= Limit (it panics while it selects the table files otherwise): a
+// domain whose start lies after its end is empty.
+func iterRange(start, end []byte) *util.Range {
+	if start != nil && end != nil && bytes.Compare(start, end) > 0 {
+		return &util.Range{Start: start, Limit: start}
+	}
+	return &util.Range{Start: start, Limit: end}
 }
 
 type goLevelDBIterator struct {
